@@ -1664,7 +1664,7 @@ func ringSignRule(p *core.Program, r *core.Report, rule string) {
 				key := fmt.Sprintf("%s/%s", site, ro)
 				bad := ""
 				switch {
-				case call.Call.Args[1] != ring:
+				case unspill(call.Call.Args[1]) != ring:
 					bad = "the triangle's sign is IsRingCounterClockwise of " + call.Call.Args[1].String() + ", not of the ring being added (" + ring.String() + "): a ring is signed by another ring's direction"
 				case ro == "shell" && !neg:
 					bad = "the shell passes the plain ring-direction predicate: shells must pass its negation"
@@ -1694,9 +1694,18 @@ func ringSignRule(p *core.Program, r *core.Report, rule string) {
 				continue
 			}
 			args := c.Common().Args
-			// the ring: the []float64 parameter of fn
+			// the ring: the []float64 parameter of fn (of the enclosing function when the loop body is a function
+			// literal; the sign it captured is then the value the enclosing function stored in the variable)
+			sign := args[len(args)-1]
+			top := fn
+			for top.Parent() != nil {
+				if v, ok := capturedValue(sign); ok {
+					sign = v
+				}
+				top = top.Parent()
+			}
 			var ring ssa.Value
-			for _, prm := range fn.Params {
+			for _, prm := range top.Params {
 				if prm.Type().String() == "[]float64" {
 					ring = prm
 				}
@@ -1705,7 +1714,7 @@ func ringSignRule(p *core.Program, r *core.Report, rule string) {
 				r.Bad(rule, short(fn)+"/ring", p.Pos(c.Pos()), "addTriangle is called from a function without a ring parameter")
 				continue
 			}
-			resolve(fn, args[len(args)-1], ring, false, 0, short(fn))
+			resolve(top, sign, ring, false, 0, short(top))
 		}
 	}
 }
@@ -1922,14 +1931,21 @@ func cornerNotCoordinateRule(p *core.Program, r *core.Report, rule string) {
 			continue
 		}
 		hasMin, hasMax := false, false
-		for _, c := range eng.Calls(fn) {
-			if eng.IsCallTo(c, "math", "Min") {
-				hasMin = true
+		var scan func(f *ssa.Function)
+		scan = func(f *ssa.Function) {
+			for _, c := range eng.Calls(f) {
+				if eng.IsCallTo(c, "math", "Min") {
+					hasMin = true
+				}
+				if eng.IsCallTo(c, "math", "Max") {
+					hasMax = true
+				}
 			}
-			if eng.IsCallTo(c, "math", "Max") {
-				hasMax = true
+			for _, a := range f.AnonFuncs { // the fold may be the body of a function literal
+				scan(a)
 			}
 		}
+		scan(fn)
 		if hasMin && hasMax {
 			kernels[fn] = true
 		}
